@@ -1,5 +1,6 @@
 """C17 -- admissibility: the one structural clause (Mader transition cell; DESIGN 3, C17)."""
 import ast
+from fractions import Fraction
 
 from ..model import AnalysisError, src_of
 from ..report import Result, Finding
@@ -84,4 +85,89 @@ def run(model, tier):
                         "Mader transition cell: the value returned for '%s' is not a convex combination of the partial-cell "
                         "fan average and the constant state: %s (constant-state branch assigns %s)"
                         % (q, why, xc.key()[:160]), line=last[q].lineno, construct=src_of(last[q])))
+    # ---- the fan meets the constant state continuously: at the tail x = xp the fan's velocity and sound
+    # speed are the constant-state values (otherwise cells next to the tail are extrapolated beyond, or cut
+    # short of, the piston state: values outside the two constant states, a non-monotone profile)
+    fan_first = {}
+    for st in chain.body:
+        if isinstance(st, ast.Assign) and len(st.targets) == 1 and isinstance(st.targets[0], ast.Name):
+            fan_first.setdefault(st.targets[0].id, st.targets[0])
+    xp_t = None
+    for func, tnode, vnode in b.assign_log:
+        if func is fi and tnode.id == 'xp':
+            xp_t = vnode
+    xlab = [a for a in args if a.val == 'xlab']
+    tim = [a for a in args if a.val == 'time']
+    dcj = [a for a in args if a.val == 'd_cj']
+    if xp_t is None or not xlab or not tim or not dcj or 'u' not in fan_first or 'c' not in fan_first:
+        raise AnalysisError('fan tail xp / fan values vanished from rare()')
+    ev2 = NFEval([])
+    ev2.memo[xlab[0].nid] = ev2.add(ev2.mul(ev2.nf(dcj[0]), ev2.nf(tim[0])), ev2.nf(xp_t), -1)     # xdet == xp
+    from ..ratnf import NFSym
+    sy = NFSym(ev2)
+    for q in ('u', 'c'):
+        res.obligations += 1
+        res.evaluations += 1
+        res.nontrivial += 1
+        fv = ev2.nf(val[id(fan_first[q])])
+        cv = ev2.nf(val[id(cst[q])])
+        ok = fv is not NAN and cv is not NAN
+        if ok:
+            try:
+                ok = sy.equal(fv, cv)
+            except TypeError:
+                ok = False
+        if ok:
+            res.discharged += 1
+            res.sample({'quantity': q, 'continuity': "fan value of '%s' at the tail xdet = xp equals the constant state" % q})
+        else:
+            res.add(Finding(PROP, 'C17.fan-tail', fi.module.relpath, fi.qualname, "fan tail: '%s' at xdet = xp" % q,
+                            "Mader: at the tail of the Taylor wave (xdet = xp = %s) the fan value of '%s' is not the "
+                            "constant-state value: the fan is extrapolated beyond (or cut short of) the state in front of "
+                            "the piston, so cells near the tail get values outside the two constant states"
+                            % (src_of(xp_t.origin[1])[:70] if xp_t.origin and xp_t.origin[1] is not None else 'xp', q),
+                            line=getattr(xp_t.origin[1], 'lineno', 0) if xp_t.origin else 0,
+                            construct=src_of(xp_t.origin[1]) if xp_t.origin and xp_t.origin[1] is not None else 'xp'))
+    # ---- the partial-cell fan values of the transition branch are the fan-branch formulas with the cell
+    # [x1, x1 + dx] replaced by the part of the cell the fan occupies, [xp, x2]
+    locs = {}
+    for func, tnode, vnode in b.assign_log:
+        if func is fi and tnode.id in ('x1', 'half', 'x2') and tnode.id not in locs:
+            locs[tnode.id] = vnode
+    x2_t = None
+    for func, tnode, vnode in b.assign_log:
+        if func is fi and tnode.id == 'x2':
+            x2_t = vnode
+    if 'x1' not in locs or 'half' not in locs or x2_t is None or not dxn:
+        raise AnalysisError('cell geometry locals x1 / half / x2 vanished from rare()')
+    ev3 = NFEval([])
+    nxp, nx2 = ev3.nf(xp_t), ev3.nf(x2_t)
+    width = ev3.add(nx2, nxp, -1)
+    ev3.memo[locs['x1'].nid] = nxp
+    ev3.memo[dxn[0].nid] = width
+    ev3.memo[locs['half'].nid] = ev3.mul(ev3.num(Fraction(1, 2)), width)
+    ev4 = NFEval([])
+    ev4.sums = ev3.sums               # one table of sum atoms for both evaluators
+    sy3 = NFSym(ev3)
+    for q in QUANT:
+        res.obligations += 1
+        res.evaluations += 1
+        res.nontrivial += 1
+        want = ev3.nf(val[id(fan_first[q])])           # fan formula on [xp, x2]
+        got = ev4.nf(val[id(first[q])])                # what the transition branch computes
+        ok = want is not NAN and got is not NAN
+        if ok:
+            try:
+                ok = sy3.equal(want, got)
+            except TypeError:
+                ok = False
+        if ok:
+            res.discharged += 1
+            res.sample({'quantity': q, 'partial_cell': "partial-cell value of '%s' is the fan formula on [xp, x2]" % q})
+        else:
+            res.add(Finding(PROP, 'C17.partial-cell', fi.module.relpath, fi.qualname, "transition cell: partial-cell '%s'" % q,
+                            "Mader transition cell: the partial-cell fan value of '%s' is not the fan-branch formula taken over "
+                            "[xp, x2], the part of the cell that the fan occupies (it is `%s`): the fan is evaluated outside "
+                            "its range, so the cell value can leave the interval spanned by the two neighbouring states"
+                            % (q, src_of(first[q])[:40] + ' = ...'), line=first[q].lineno, construct=src_of(first[q])))
     return res
